@@ -384,7 +384,10 @@ fn validate_nameserver_response(
         // the `CNAME` RRs on the path from the query name to the final name, in
         // chain order: `follow_cnames` has checked that this path has no loop
         let mut name = &question.name;
-        while let Some(target) = cname_map.get(name) {
+        while *name != final_name {
+            let Some(target) = cname_map.get(name) else {
+                break;
+            };
             if let Some(an) = response.answers.iter().find(|an| {
                 !an.is_unknown()
                     && an.name == *name
@@ -535,6 +538,16 @@ fn follow_cnames(
         if let RecordTypeWithData::CNAME { cname } = &rr.rtype_with_data {
             cname_map.insert(rr.name.clone(), cname.clone());
         }
+    }
+
+    // a question for the `CNAME` itself is answered by that record, not by
+    // what it points to
+    if qtype == QueryType::Record(RecordType::CNAME) {
+        return if got_match {
+            Some((target.clone(), cname_map))
+        } else {
+            None
+        };
     }
 
     let mut seen = HashSet::new();
